@@ -142,6 +142,169 @@ def elif_variants(src):
         yield ast.unparse(t) + "\n", "elif@%d" % n.lineno, n.lineno
 
 
+
+def _variants(src, pick, rewrite, tag):
+    """generic: one variant per node selected by pick(tree) -> list of nodes; rewrite(tree_copy, k) edits in place
+    and returns True if it applied"""
+    tree = ast.parse(src)
+    n = len(pick(tree))
+    for k in range(n):
+        t = ast.parse(src)
+        node = pick(t)[k]
+        if rewrite(t, node):
+            ast.fix_missing_locations(t)
+            try:
+                yield ast.unparse(t) + "\n", "%s@%d" % (tag, getattr(node, "lineno", 0)), getattr(node, "lineno", 0)
+            except Exception:
+                continue
+
+
+def _replace_stmt(tree, old, new_list):
+    for par in ast.walk(tree):
+        for fld in ("body", "orelse", "finalbody"):
+            seq = getattr(par, fld, None)
+            if isinstance(seq, list) and old in seq:
+                i = seq.index(old)
+                seq[i:i + 1] = new_list
+                return True
+    return False
+
+
+def cmp_variants(src):
+    """a == b -> b == a ; a < b -> b > a  (single comparisons, no constants involved for ==)"""
+    flip = {ast.Lt: ast.Gt, ast.Gt: ast.Lt, ast.LtE: ast.GtE, ast.GtE: ast.LtE, ast.Eq: ast.Eq, ast.NotEq: ast.NotEq}
+
+    def pick(t):
+        return [n for n in ast.walk(t) if isinstance(n, ast.Compare) and len(n.ops) == 1 and type(n.ops[0]) in flip]
+
+    def rw(t, n):
+        n.left, n.comparators[0], n.ops[0] = n.comparators[0], n.left, flip[type(n.ops[0])]()
+        return True
+
+    return _variants(src, pick, rw, "cmp")
+
+
+def temp_variants(src):
+    """if COND: ...  ->  cond_tmp = COND; if cond_tmp: ...   (not for elif arms)"""
+    def pick(t):
+        elifs = {id(n.orelse[0]) for n in ast.walk(t) if isinstance(n, ast.If) and len(n.orelse) == 1 and isinstance(n.orelse[0], ast.If)}
+        return [n for n in ast.walk(t) if isinstance(n, ast.If) and id(n) not in elifs and not isinstance(n.test, (ast.Name, ast.Constant))]
+
+    def rw(t, n):
+        tmp = ast.Assign(targets=[ast.Name(id="cond_tmp", ctx=ast.Store())], value=n.test, lineno=n.lineno)
+        new_if = ast.If(test=ast.Name(id="cond_tmp", ctx=ast.Load()), body=n.body, orelse=n.orelse)
+        return _replace_stmt(t, n, [tmp, new_if])
+
+    return _variants(src, pick, rw, "temp")
+
+
+def comp2loop_variants(src):
+    """x = [e for v in it if c]  ->  x = []; for v in it: if c: x.append(e)    (also dict / set comprehensions)"""
+    def pick(t):
+        return [n for n in ast.walk(t) if isinstance(n, (ast.Assign, ast.AnnAssign)) and isinstance(n.value, (ast.ListComp, ast.SetComp, ast.DictComp)) and len(n.value.generators) == 1
+                and isinstance((n.targets[0] if isinstance(n, ast.Assign) else n.target), ast.Name) and (not isinstance(n, ast.Assign) or len(n.targets) == 1)]
+
+    def rw(t, n):
+        tgt = (n.targets[0] if isinstance(n, ast.Assign) else n.target).id
+        c = n.value
+        g = c.generators[0]
+        if tgt in {x.id for x in ast.walk(c) if isinstance(x, ast.Name)}:
+            return False
+        if isinstance(c, ast.ListComp):
+            init, add = ast.List(elts=[], ctx=ast.Load()), ast.Expr(ast.Call(ast.Attribute(ast.Name(tgt, ast.Load()), "append", ast.Load()), [c.elt], []))
+        elif isinstance(c, ast.SetComp):
+            init, add = ast.Call(ast.Name("set", ast.Load()), [], []), ast.Expr(ast.Call(ast.Attribute(ast.Name(tgt, ast.Load()), "add", ast.Load()), [c.elt], []))
+        else:
+            init, add = ast.Dict(keys=[], values=[]), ast.Assign(targets=[ast.Subscript(ast.Name(tgt, ast.Load()), c.key, ast.Store())], value=c.value, lineno=n.lineno)
+        body = [add]
+        for cond in reversed(g.ifs):
+            body = [ast.If(test=cond, body=body, orelse=[])]
+        loop = ast.For(target=g.target, iter=g.iter, body=body, orelse=[], lineno=n.lineno)
+        first = ast.Assign(targets=[ast.Name(tgt, ast.Store())], value=init, lineno=n.lineno)
+        return _replace_stmt(t, n, [first, loop])
+
+    return _variants(src, pick, rw, "comp2loop")
+
+
+def whiletrue_variants(src):
+    """while X: B  ->  while True: if not X: break; B      (no else clause)"""
+    def pick(t):
+        return [n for n in ast.walk(t) if isinstance(n, ast.While) and not n.orelse and not (isinstance(n.test, ast.Constant))]
+
+    def rw(t, n):
+        g = ast.If(test=ast.UnaryOp(op=ast.Not(), operand=n.test), body=[ast.Break()], orelse=[])
+        n.test = ast.Constant(True)
+        n.body = [g] + n.body
+        return True
+
+    return _variants(src, pick, rw, "whiletrue")
+
+
+def isinst_variants(src):
+    """isinstance(x, (A, B)) -> isinstance(x, A) or isinstance(x, B)"""
+    def pick(t):
+        return [n for n in ast.walk(t) if isinstance(n, ast.Call) and isinstance(n.func, ast.Name) and n.func.id == "isinstance" and len(n.args) == 2 and isinstance(n.args[1], ast.Tuple) and len(n.args[1].elts) >= 2]
+
+    def rw(t, n):
+        parts = [ast.Call(ast.Name("isinstance", ast.Load()), [copy.deepcopy(n.args[0]), e], []) for e in n.args[1].elts]
+        new = ast.BoolOp(op=ast.Or(), values=parts)
+        for par in ast.walk(t):
+            for fld, val in ast.iter_fields(par):
+                if val is n:
+                    setattr(par, fld, new)
+                    return True
+                if isinstance(val, list) and n in val:
+                    val[val.index(n)] = new
+                    return True
+        return False
+
+    return _variants(src, pick, rw, "isinst")
+
+
+def items2keys_variants(src):
+    """for k, v in d.items(): B  ->  for k in d: v = d[k]; B"""
+    def pick(t):
+        return [n for n in ast.walk(t) if isinstance(n, ast.For) and isinstance(n.target, ast.Tuple) and len(n.target.elts) == 2 and all(isinstance(e, ast.Name) for e in n.target.elts)
+                and isinstance(n.iter, ast.Call) and isinstance(n.iter.func, ast.Attribute) and n.iter.func.attr == "items" and not n.iter.args and isinstance(n.iter.func.value, (ast.Name, ast.Attribute))]
+
+    def rw(t, n):
+        k, v = n.target.elts
+        d = n.iter.func.value
+        n.target = ast.Name(k.id, ast.Store())
+        n.iter = d
+        n.body = [ast.Assign(targets=[ast.Name(v.id, ast.Store())], value=ast.Subscript(copy.deepcopy(d), ast.Name(k.id, ast.Load()), ast.Load()), lineno=n.lineno)] + n.body
+        return True
+
+    return _variants(src, pick, rw, "items2keys")
+
+
+def elsewrap_variants(src):
+    """if c: ..; return/continue   REST   ->  if c: ..; return  else: REST   (inverse of the guard-clause form)"""
+    def pick(t):
+        out = []
+        for par in ast.walk(t):
+            for fld in ("body", "orelse"):
+                seq = getattr(par, fld, None)
+                if isinstance(seq, list):
+                    for i, st in enumerate(seq[:-1]):
+                        if isinstance(st, ast.If) and not st.orelse and st.body and isinstance(st.body[-1], (ast.Return, ast.Continue, ast.Raise)):
+                            out.append(st)
+        return out
+
+    def rw(t, n):
+        for par in ast.walk(t):
+            for fld in ("body", "orelse"):
+                seq = getattr(par, fld, None)
+                if isinstance(seq, list) and n in seq:
+                    i = seq.index(n)
+                    n.orelse = seq[i + 1:]
+                    del seq[i + 1:]
+                    return bool(n.orelse)
+        return False
+
+    return _variants(src, pick, rw, "elsewrap")
+
+
 def job(args):
     rel, op, name, line, new_src, base = args
     from sa.rules import RULES, load_all
@@ -150,7 +313,11 @@ def job(args):
     tmp = tempfile.mkdtemp(prefix="benign_")
     try:
         shutil.copytree(os.path.join(REPO, PKG), os.path.join(tmp, PKG), ignore=shutil.ignore_patterns("__pycache__", "tests"))
-        open(os.path.join(tmp, PKG, rel), "w").write(new_src)
+        if isinstance(new_src, dict):
+            for r_, s_ in new_src.items():
+                open(os.path.join(tmp, PKG, r_), "w").write(s_)
+        else:
+            open(os.path.join(tmp, PKG, rel), "w").write(new_src)
         res = run_rules_on(tmp, sorted(RULES))
         new_v = [v for v in res["violations"] if v not in base["violations"]]
         new_u = [v for v in res["unresolved"] if v not in base["unresolved"]]
@@ -192,6 +359,10 @@ def main():
         if "aug" in ops:
             for new, nm, ln in aug_variants(src):
                 todo.append((rel, "aug", nm, ln, new, base))
+        for opn, gen in (("cmp", cmp_variants), ("temp", temp_variants), ("comp2loop", comp2loop_variants), ("whiletrue", whiletrue_variants), ("isinst", isinst_variants), ("items2keys", items2keys_variants), ("elsewrap", elsewrap_variants)):
+            if opn in ops:
+                for new, nm, ln in gen(src):
+                    todo.append((rel, opn, nm, ln, new, base))
         for i in range(n):
             if "rename" in ops:
                 r = rename_variant(src, i)
@@ -200,6 +371,38 @@ def main():
             if "log" in ops:
                 r = log_variant(src, i)
                 todo.append((rel, "log", r[1], r[2], r[0], base))
+    if "privatise" in ops:
+        # a function / method is made private (or public) everywhere: def, calls, imports
+        srcs = {rel: open(os.path.join(REPO, PKG, rel)).read() for rel in lib_files()}
+        trees = {rel: ast.parse(v) for rel, v in srcs.items()}
+        names = {}
+        for rel, t in trees.items():
+            for n in ast.walk(t):
+                if isinstance(n, (ast.FunctionDef, ast.AsyncFunctionDef)) and not n.name.startswith("__"):
+                    names.setdefault(n.name, []).append((rel, n.lineno))
+        only = opt("--only")
+        for nm, where in sorted(names.items()):
+            if only and nm != only:
+                continue
+            new = ("_" + nm) if not nm.startswith("_") else nm.lstrip("_")
+            if new in names or not new:
+                continue
+            out = {}
+            for rel in srcs:
+                t = ast.parse(srcs[rel])
+                hit = False
+                for n in ast.walk(t):
+                    if isinstance(n, (ast.FunctionDef, ast.AsyncFunctionDef)) and n.name == nm:
+                        n.name, hit = new, True
+                    elif isinstance(n, ast.Name) and n.id == nm:
+                        n.id, hit = new, True
+                    elif isinstance(n, ast.Attribute) and n.attr == nm:
+                        n.attr, hit = new, True
+                    elif isinstance(n, ast.alias) and n.name == nm:
+                        n.name, hit = new, True
+                if hit:
+                    out[rel] = ast.unparse(t) + "\n"
+            todo.append((where[0][0], "privatise", nm + "->" + new, where[0][1], out, base))
     print(len(todo), "variants", flush=True)
     bad = 0
     with ProcessPoolExecutor(max_workers=jobs) as ex:
